@@ -315,7 +315,11 @@ impl<'a> TraceGen<'a> {
             }
             for _ in 0..nframes {
                 let c = if canonical { self.class_canon(rng) } else { self.class(rng) };
-                let m = self.method_for(rng, &c);
+                let mut m = self.method_for(rng, &c);
+                if canonical && m.chars().any(|ch| ch == '.' || ch == '(' || ch.is_whitespace()) {
+                    // canonical traces (C08 / C17) carry methods without dots
+                    m = "run".to_string();
+                }
                 let file: Option<&str> = if canonical || rng.pct(80) {
                     Some(rng.pick(&["SourceFile", "Foo.java", "<unknown>", "a b", ""]))
                 } else {
@@ -1056,7 +1060,9 @@ pub fn gen_c07(rng: &mut Rng, tier: &str, out: &mut Out) {
 
 fn trace_threshold_ops(out: &mut Out, typ: bool, th: bool) {
     // > 256 and > 4096 entries behind one frame line
-    let sizes: Vec<usize> = if th || !typ { vec![300, 4097] } else { vec![300] };
+    // (the 4097- and 20000-entry groups of the quick tier are checked by C07's oracle against an
+    // expectation constructed in the harness: the list-based model needs 40 s for such a file)
+    let sizes: Vec<usize> = if th { vec![300, 4097] } else if !typ { vec![300, 1025] } else { vec![300] };
     for n in sizes {
         let text = threshold_mapping(n);
         map_op(out, true, &text);
